@@ -139,6 +139,12 @@ def run(P: Program, R: Report, tier: str) -> None:
 
     ta = P.class_named("TrackAnnotator")
     monotone_maxima(P, R, ta, families(P, ta), "R05.7", only_key="lineage", floor=1)
+    # ---- R02.6 (shared): every top-level action is one history step and a nested one none - a stray step makes a later
+    # undo / redo replay half an edit, which is a state this property quantifies over ("after every ... undo or redo")
+    from . import c02 as _c02r
+
+    _c02r.history_shape(P, R)
+    _c02r.registration(P, R, tier, A=A, facade=False)
 
 
 ID_SOURCES = ("get_track_neighbors", "get_lineage_id", "get_track_id", "get_next_track_id", "get_next_lineage_id")
